@@ -13,6 +13,7 @@ from . import core
 from .core import (S, C, V, VVar, VConst, VFresh, VLin, VPw, VApp, OpSym, Unsupported, EngineError,
                    sbool, s_and, s_or, s_not, s_if)
 from . import interp as ip
+from . import carr
 
 INT32_MAX = 2 ** 31 - 1
 
@@ -585,7 +586,7 @@ class NpModule(object):
                   'asarray', 'array', 'can_cast', 'issubsctype', 'issubdtype', 'isrealobj', 'iscomplexobj', 'result_type',
                   'where', 'sum', 'max', 'min', 'dot', 'vdot', 'tensordot', 'array_equal', 'isfinite', 'isnan', 'any', 'all',
                   'float_power', 'copyto', 'full', 'full_like', 'promote_types', 'isclose', 'allclose', 'ndim', 'shape', 'size',
-                  'errstate', 'lib'):
+                  'errstate', 'lib', 'swapaxes'):
             t[n] = ip.Builtin('np.' + n, getattr(self, 'f_' + n))
         t['linalg'] = I.PyModule('numpy.linalg', {'norm': ip.Builtin('np.linalg.norm', self.f_norm)})
 
@@ -598,6 +599,9 @@ class NpModule(object):
         def f(I, fr, args, kwargs):
             out = kwargs.get('out', args[2] if len(args) > 2 else None)
             a, b = args[0], args[1]
+            if isinstance(a, carr.CArr) or isinstance(b, carr.CArr) or isinstance(out, carr.CArr):
+                r = carr.ufunc(I, fr, op, [a, b], out=out)
+                return out if out is not None else r
             if not isinstance(a, PArr) and not isinstance(b, PArr):
                 a, b = unwrap(I, fr, a), unwrap(I, fr, b)
             if not isinstance(a, PArr) and not isinstance(b, PArr):
@@ -614,6 +618,9 @@ class NpModule(object):
     def _mk1(self, op):
         def f(I, fr, args, kwargs):
             out = kwargs.get('out', args[1] if len(args) > 1 else None)
+            if isinstance(args[0], carr.CArr):
+                r = carr.ufunc(I, fr, op, [args[0]], out=out)
+                return out if out is not None else r
             if isinstance(args[0], ip.Obj) and hasattr(args[0], 'content'):
                 # abstract tensor-like element: np.<ufunc>(element) acts like element.ufuncs.<ufunc>() (C17)
                 uf = I._getattr(args[0], 'ufuncs', fr)
@@ -636,6 +643,14 @@ class NpModule(object):
 
     def _alloc(self, I, fr, args, kwargs, content):
         shape = args[0] if args else kwargs['shape']
+        if getattr(fr.st, 'closure_arrays', False) and not isinstance(shape, SymShape):
+            if isinstance(shape, (int, S)):
+                shape = (shape,)
+            dt0 = as_dtype(kwargs.get('dtype', args[1] if len(args) > 1 else None))
+            c = content(dt0)
+            if isinstance(c, VFresh):
+                return carr.fresh_array('empty.%s' % c.tag, tuple(shape), dt0)
+            return carr.const_array(c.c, tuple(shape), dt0)
         dt = as_dtype(kwargs.get('dtype', args[1] if len(args) > 1 else None))
         order = kwargs.get('order', args[2] if len(args) > 2 else 'C')
         if isinstance(shape, (int, S)):
@@ -658,6 +673,12 @@ class NpModule(object):
 
     def _like(self, I, fr, args, kwargs, content):
         a = unwrap(I, fr, args[0])
+        if isinstance(a, carr.CArr):
+            dt0 = as_dtype(kwargs['dtype']) if kwargs.get('dtype') is not None else a.buf.dtype
+            c = content(dt0 or DT('float64'))
+            if isinstance(c, VFresh):
+                return carr.fresh_array('empty.%s' % c.tag, a.shape, dt0)
+            return carr.const_array(c.c, a.shape, dt0)
         if not isinstance(a, PArr):
             raise Unsupported('*_like of %r' % (a,))
         dt = as_dtype(kwargs['dtype']) if kwargs.get('dtype') is not None else a.buf.dtype
@@ -702,6 +723,8 @@ class NpModule(object):
 
     def f_asarray(self, I, fr, args, kwargs):
         a = unwrap(I, fr, args[0])
+        if isinstance(a, carr.CArr):
+            return a
         if isinstance(a, PArr):
             dt = kwargs.get('dtype', args[1] if len(args) > 1 else None)
             if dt is None or as_dtype(dt) == a.buf.dtype:
@@ -909,6 +932,14 @@ class NpModule(object):
         if I.scalar_kind(a) is not None:
             return 1
         raise Unsupported('np.size')
+
+    def f_swapaxes(self, I, fr, args, kwargs):
+        a = args[0]
+        if isinstance(a, carr.CArr):
+            i, j = args[1], args[2]
+            nd = a.ndim
+            return carr.swapaxes(a, i % nd, j % nd)
+        raise Unsupported('np.swapaxes of %r' % (a,))
 
     def f_errstate(self, I, fr, args, kwargs):
         return NullCM()
